@@ -52,7 +52,11 @@ func rtPanic(format string, args ...any) {
 }
 
 // Sym is an opaque token (a logger, an appender, an error value).
-type Sym struct{ Name string }
+type Sym struct {
+	Name string
+	// N: for an error value, the length of its text when the model could compute it (0: unknown)
+	N int
+}
 
 type NilV struct{}
 
@@ -2311,7 +2315,49 @@ func (ip *Interp) model(fn *ssa.Function, args []AV) (res AV, ok bool) {
 		}
 		return kInt(0), true
 	case "errors.New", "fmt.Errorf", "github.com/go-spring/stdlib/errutil.Explain", "github.com/go-spring/stdlib/errutil.Stack":
-		return &IfaceV{T: types.Universe.Lookup("error").Type(), V: &Sym{Name: "error"}}, true
+		sym := &Sym{Name: "error"}
+		if name == "fmt.Errorf" || name == "errors.New" {
+			// the length of the text, where it is determined by constant strings, integers and the lengths of wrapped
+			// errors (a text that grows faster than the input is a resource problem the evaluators look for)
+			if f, ok := args[0].(constant.Value); ok && f.Kind() == constant.String {
+				format := constant.StringVal(f)
+				var vals []any
+				known := true
+				if name == "fmt.Errorf" && len(args) > 1 {
+					if sv, ok := args[1].(*SliceV); ok {
+						for _, e := range sv.elems() {
+							if iv, ok := e.(*IfaceV); ok {
+								e = iv.V
+							}
+							switch x := e.(type) {
+							case constant.Value:
+								switch x.Kind() {
+								case constant.String:
+									vals = append(vals, constant.StringVal(x))
+								case constant.Int:
+									n, _ := constant.Int64Val(x)
+									vals = append(vals, n)
+								default:
+									vals = append(vals, "?")
+								}
+							case *Sym:
+								if x.N > 0 && x.N < 1<<22 {
+									vals = append(vals, fmt.Errorf("%s", strings.Repeat("e", x.N)))
+								} else {
+									known = false
+								}
+							default:
+								known = false
+							}
+						}
+					}
+				}
+				if known {
+					sym.N = len(fmt.Errorf(format, vals...).Error())
+				}
+			}
+		}
+		return &IfaceV{T: types.Universe.Lookup("error").Type(), V: sym}, true
 	case "errors.Join":
 		// nil iff every argument is nil
 		if sv, ok := args[0].(*SliceV); ok {
